@@ -27,7 +27,7 @@ ASSUMPTIONS = [
     "wrapper rules: the first command of a non-empty prefix enters configuration mode; 'commit*' only with do_commit; save/write/copy only with do_finalize",
     "R7 (vf/ref/deploy.py) for rule chains; sibling deploy rules have disjoint languages; no %ifcontext in generated rulebooks",
 ]
-FLOORS = {"quick": {"streams_compared": 3000, "commands_compared": 20000, "exits_seen": 3000, "rule_params_checked": 5000, "nondefault_params": 500, "production_jobs": 200, "cases_with_two_apply_logics": 100, "xpl_patches": 500, "xpl_endif_lines_shown": 500, "production_real_jobs": 12, "regexp_dialogs_checked": 200, "context_rulebooks": 400, "ifcontext_rules_matched": 300, "command_contexts_checked": 8000, "exit_contexts_checked": 2000, "commands_governed_by_one_of_two_same_row_rules": 300, "commands_with_a_prompt_listed_in_two_spellings": 300},
+FLOORS = {"quick": {"streams_compared": 3000, "commands_compared": 20000, "exits_seen": 3000, "rule_params_checked": 5000, "nondefault_params": 500, "production_jobs": 200, "cases_with_two_apply_logics": 100, "xpl_patches": 500, "xpl_endif_lines_shown": 500, "production_real_jobs": 12, "regexp_dialogs_checked": 200, "context_rulebooks": 400, "ifcontext_rules_matched": 300, "command_contexts_checked": 8000, "exit_contexts_checked": 2000, "commands_governed_by_one_of_two_same_row_rules": 300, "commands_with_a_prompt_listed_in_two_spellings": 300, "commands_with_a_fractional_timeout": 1000, "commands_with_a_multi_word_answer": 1000},
           "thorough": {"streams_compared": 90000, "commands_compared": 600000, "exits_seen": 90000, "rule_params_checked": 150000, "nondefault_params": 15000, "production_jobs": 6000, "xpl_patches": 12000, "xpl_endif_lines_shown": 12000, "production_real_jobs": 12}}
 MODELS = {
     "huawei": ["Huawei", "Huawei CE6870", "Huawei NE40E-X8", "Huawei Quidway S5300"],
@@ -105,10 +105,10 @@ def gen_deploy_rules(rng, rules, prefix, flat_pool, depth=0, ctx=False):
         if r.pat == "~" or r.ignore or rng.random() < 0.4:
             continue
         for pat in ([r.pat] + ([prefix + " " + r.pat] if rng.random() < 0.6 else [])):
-            attrs = {"apply": (rng.random() < 0.25), "timeout": float(rng.randint(31, 99)),
+            attrs = {"apply": (rng.random() < 0.25), "timeout": float(rng.randint(31, 99)) + rng.choice([0, 0, 0.5, 0.25]),  # (%timeout is a float >= 1)
                      # plain-text prompts and /regexp/ prompts (the latter are matched as regular expressions by the driver)
                      # (prompts may hold a literal percent sign, as IOS error prompts do: it is not a parameter unless `%name` follows a blank)
-                     "dialogs": [(rng.choice(["/Q%d %s.*/", "/Q%d %s.*/", "Q%d %s?", "Q%d %s?", "Q%d %s?", "%% Q%d do you %s? [yes/no]:", "Q%d 100%% %s?"]) % (rng.randint(1, 99), w), "Y")
+                     "dialogs": [(rng.choice(["/Q%d %s.*/", "/Q%d %s.*/", "Q%d %s?", "Q%d %s?", "Q%d %s?", "%% Q%d do you %s? [yes/no]:", "Q%d 100%% %s?"]) % (rng.randint(1, 99), w), rng.choice(["Y", "Y", "yes", "Authorized access only", "y n"]))
                                  for w in rng.sample(["sure", "really", "continue"], rng.randint(0, 2))]}
             plain_d = [d_ for d_ in attrs["dialogs"] if not d_[0].startswith("/")]
             if plain_d and rng.random() < 0.25:
@@ -145,7 +145,7 @@ def gen_deploy_rules(rng, rules, prefix, flat_pool, depth=0, ctx=False):
 def render_deploy(rules, ind=0):
     out = []
     for pat, attrs, ch in rules:
-        out.append(" " * ind + pat + "  %%timeout=%d" % attrs["timeout"] + ("  %apply_logic=aruba.ap_env.apply" if attrs.get("apply") else "")
+        out.append(" " * ind + pat + "  %%timeout=%g" % attrs["timeout"] + ("  %apply_logic=aruba.ap_env.apply" if attrs.get("apply") else "")
                    + ("  %%ifcontext=%s" % ",".join(attrs["ifcontext"]) if attrs.get("ifcontext") else ""))
         for q, a in attrs["dialogs"]:
             out.append(" " * (ind + 4) + "dialog: %s ::: %s" % (q, a))
@@ -291,6 +291,10 @@ def check_stream(pt, model, vname, flags, acc, w, deploy_rules=None, deploy_comp
                 acc.count("nondefault_params")
                 if exp[1].get("respelled"):
                     acc.count("commands_with_a_prompt_listed_in_two_spellings")
+                if float(et) != int(et):
+                    acc.count("commands_with_a_fractional_timeout")
+                if any(" " in a_ for _, a_, _ in eq):
+                    acc.count("commands_with_a_multi_word_answer")
             if float(c.timeout) != float(et) or gq != eq:
                 acc.violation("C09/wrong-deploy-rule-parameters", "a command does not carry the timeout/dialog answers of the deploy rule chain matching its block path (or the defaults)",
                               dict(w, path=list(p), expected=[et, eq], got=[c.timeout, gq], deploy_rulebook=w.get("deploy_rulebook")))
